@@ -25,12 +25,24 @@ import (
 )
 
 const (
-	repoDir    = "/repo"
 	modPath    = "github.com/janelia-flyem/dvid"
 	verifDir   = "/verif"
 	harnessDir = "/verif/harness"
 	buildTags  = "badger verif noasm"
 )
+
+// repoDir is /repo unless GOSYM_REPO points at a scratch worktree (used only to try seeded changes in parallel).
+var repoDir = envOr("GOSYM_REPO", "/repo")
+
+// outDir receives evidence files and work directories (default /verif).
+var outDir = envOr("GOSYM_OUT", "/verif")
+
+func envOr(k, d string) string {
+	if v := os.Getenv(k); v != "" {
+		return v
+	}
+	return d
+}
 
 // ---- registry --------------------------------------------------------------------
 
